@@ -26,14 +26,15 @@ type Violation struct {
 }
 
 type Stats struct {
-	Picks     uint64 `json:"picks"`
-	Multi     uint64 `json:"multi"`
-	Yields    uint64 `json:"yields"`
-	Sites     uint64 `json:"sites"`
-	SchedHash uint64 `json:"sched_hash"`
-	Diverge   uint64 `json:"diverge"`
-	NDec      int    `json:"ndec"`
-	Overflow  bool   `json:"overflow,omitempty"`
+	Picks      uint64 `json:"picks"`
+	Multi      uint64 `json:"multi"`
+	Yields     uint64 `json:"yields"`
+	Sites      uint64 `json:"sites"`
+	SchedHash  uint64 `json:"sched_hash"`
+	Diverge    uint64 `json:"diverge"`
+	SpinSleeps uint64 `json:"spin_sleeps,omitempty"`
+	NDec       int    `json:"ndec"`
+	Overflow   bool   `json:"overflow,omitempty"`
 }
 
 type Outcome struct {
